@@ -129,6 +129,10 @@ def gen(seed, tier):
             n["opts"]["rechunk_on_save"] = False if n["kind"] == "source" else n["opts"]["rechunk_on_save"]
         src["opts"]["rechunk_on_save"] = False
         w["cfg"]["max_workers"] = 1
+        # a plugin whose compute takes chunk_i: strax then drives its own chunk counter over the job's chunk numbers
+        nb = P.node_by_type(spec)
+        if nb[target]["kind"] == "rowmap" and r.random() < 0.5:
+            nb[target]["opts"]["takes_chunk_i"] = True
     return w
 
 
